@@ -1,0 +1,31 @@
+//go:build verif
+
+package operation
+
+// Contracts for the verification framework in /verif (comment-only file, build tag `verif`).
+
+// The validity predicate of a metric operation, spelled out from the documentation
+// (docs: METRICS from hooks) — C16 "if any metric operation is invalid, none is applied".
+//@ pred Valid(op MetricOperation) := op.Action != ""
+//@     && ite(op.Group == "", op.Action == "set" || op.Action == "add" || op.Action == "observe", op.Action == "expire" || op.Action == "set" || op.Action == "add")
+//@     && !(op.Name == "" && (op.Group == "" || op.Action != "expire"))
+//@     && ((op.Action == "set" || op.Action == "add" || op.Action == "observe") ==> op.Value != nil)
+//@     && (op.Action == "observe" ==> op.Buckets != nil)
+//@     && !(op.Set != nil && op.Add != nil)
+
+// What MetricOperationsFromReader establishes for the deprecated shortcuts `add` / `set`.
+//@ pred Normalized(op MetricOperation) := (op.Add != nil && op.Set == nil ==> op.Action == "add" && op.Value == op.Add)
+//@     && (op.Set != nil && op.Add == nil ==> op.Action == "set" && op.Value == op.Set)
+
+//@ func ValidateMetricOperation
+//@   prop C16
+//@   modifies nothing
+//@   ensures [iff-valid] (result == nil) == Valid(op)
+
+//@ func ValidateOperations
+//@   prop C16
+//@   modifies nothing
+//@   ensures [iff-all-valid] (result == nil) == forall(j, 0, len(ops), Valid(ops[j]))
+//@   loop 1
+//@     invariant 0 <= iter() && iter() <= len(ops)
+//@     invariant (opsErrs == nil) == forall(j, 0, iter(), Valid(ops[j]))
